@@ -16,7 +16,7 @@ import (
 func init() { Registry["C07"] = c07 }
 
 func c07(c *core.Ctx) map[string]interface{} {
-	c.Explanation = "Static table/layout/coverage check of the NAS algorithms (C07). Decided: (R7.sbox) the 2x256 SNOW 3G S-box literals equal the tables the checker generates from their algebraic definitions (Rijndael S-box; Dickson polynomial box of TS 35.216 3.3.2); (R7.const) MULalpha/DIValpha exponents 23,245,48,239 / 16,39,6,64 over 0xA9 in byte positions 3..0, MULx semantics, S1/S2 byte recombination with 0x1B/0x69 as GF(2)-linear forms of the S-box outputs, LFSR feedback taps (s0<<8, MULa(s0>>24), s2, s11>>8, DIVa(s11&0xff) [,F]), FSM update, key/IV loading table of InitSnow3g (TS 35.216 3.4.1), 32 initialisation clocks and one discarded keystream clock; (R7.iv) IV/counter-block bit layouts of NEA1, NIA1, NEA2, NIA2 (TS 35.215, TS 33.401 B.1/B.2) under the BEARER<32/DIRECTION<2 guards, which are checked; dispatch of algorithm ids 0/1/2; NEA0 leaves the payload untouched; ciphertext copied back over the whole payload; CMAC truncated to 4 octets; (R7.shift) no shift in security/snow3g whose count can reach the operand width (keystream truncation covers every octet); (R7.fresh) every call starts from a fully re-initialised generator: InitSnow3g writes all 16 LFSR cells and all 3 FSM registers before anything reads them, and NEA1/NIA1 call it before GenerateKeystream. (R7.gf64) the GF(2^64) helpers of EIA1: MULx tests bit 63, MULxPOW is its i-fold application, MUL xors MULxPOW(V,i,c) for exactly the set bits i = 0..63 of P (indexed or iterative spelling); (R7.nia1-blocks / R7.nia1-horner) for every LENGTH mod 64 the block loop folds the right number of 64-bit blocks at the right offsets and never skips the Horner step Eval := (Eval xor M) * P. NOT decided: bit-exact equality of the complete algorithms with the 3GPP specifications (GF(2^64) evaluation and message-block arithmetic of NIA1, keystream application loops are only checked for the listed structural facts); AES, CTR and CMAC come from crypto/aes, crypto/cipher and github.com/aead/cmac (trusted)."
+	c.Explanation = "Static table/layout/coverage check of the NAS algorithms (C07). Decided: (R7.sbox) the 2x256 SNOW 3G S-box literals equal the tables the checker generates from their algebraic definitions (Rijndael S-box; Dickson polynomial box of TS 35.216 3.3.2); (R7.const) MULalpha/DIValpha exponents 23,245,48,239 / 16,39,6,64 over 0xA9 in byte positions 3..0, MULx semantics, S1/S2 byte recombination with 0x1B/0x69 as GF(2)-linear forms of the S-box outputs, LFSR feedback taps (s0<<8, MULa(s0>>24), s2, s11>>8, DIVa(s11&0xff) [,F]), FSM update, key/IV loading table of InitSnow3g (TS 35.216 3.4.1), 32 initialisation clocks and one discarded keystream clock; (R7.iv) IV/counter-block bit layouts of NEA1, NIA1, NEA2, NIA2 (TS 35.215, TS 33.401 B.1/B.2) under the BEARER<32/DIRECTION<2 guards, which are checked; dispatch of algorithm ids 0/1/2; NEA0 leaves the payload untouched; ciphertext copied back over the whole payload; CMAC truncated to 4 octets; (R7.shift) no shift in security/snow3g whose count can reach the operand width (keystream truncation covers every octet); (R7.fresh) every call starts from a fully re-initialised generator: InitSnow3g writes all 16 LFSR cells and all 3 FSM registers before anything reads them, and NEA1/NIA1 call it before GenerateKeystream. (R7.gf64) the GF(2^64) helpers of EIA1: MULx tests bit 63, MULxPOW is its i-fold application, MUL xors MULxPOW(V,i,c) for exactly the set bits i = 0..63 of P (indexed or iterative spelling); (R7.nia1-blocks / R7.nia1-horner) for every LENGTH mod 64 the block loop folds the right number of 64-bit blocks at the right offsets and never skips the Horner step Eval := (Eval xor M) * P. (R7.const, partition) where MULx, MULxPOW, MULalpha, DIValpha are not spelled in the recognised algebraic form (tables filled by an initialiser, branch-free masks) they are folded for all 256 arguments (and the constants in use) and compared with the definition; S1/S2 are decided bit by bit with MULx entered. (R7.iv, NEA1 application, partition) NEA1 is folded for every LENGTH of 1..160 bits and 16 larger ones with symbolic input and keystream (the generator modelled by its clock, every GenerateKeystream call discarding one word): output octet e is input octet e xor octet e mod 4 of keystream word e div 4 for the first LENGTH bits; the loop-form rule extends this to every LENGTH when the loops are of the recognised form. Package-level tables are read as what the package initialiser left in them when nothing can write them afterwards. NOT decided: bit-exact equality of the complete algorithms with the 3GPP specifications (GF(2^64) evaluation and message-block arithmetic of NIA1, keystream application loops are only checked for the listed structural facts); AES, CTR and CMAC come from crypto/aes, crypto/cipher and github.com/aead/cmac (trusted)."
 	c.Assumptions = []string{"crypto/aes, crypto/cipher.NewCTR and github.com/aead/cmac implement AES-128, CTR mode and CMAC",
 		"S-box definitions: SR = Rijndael S-box (inverse in GF(2^8) mod 0x11B + affine map); SQ(x) = x + x^9 + x^13 + x^15 + x^33 + x^41 + x^45 + x^47 + x^49 + 0x25 in GF(2^8) mod 0x169 (TS 35.216 3.3.2)"}
 	r7sbox(c)
